@@ -59,6 +59,7 @@ type Opts struct {
 	KeepFiles            bool    `json:"keepFiles,omitempty"`
 	NaiveSeekMax         int     `json:"naiveSeekMax,omitempty"`
 	SkipStats            bool    `json:"skipStats,omitempty"`
+	NoLLInit             bool    `json:"noLLInit,omitempty"` // custom lower level: no LowerLevelInit snapshot (it starts empty)
 }
 
 // Op is one step of a driver program.
